@@ -126,7 +126,7 @@ var serveFamilies = []*serveFamily{
 	{name: "carried", rules: []string{"C11|R-loop", "C11|R-reset"}, mask: evHandler | evReqReset | evRespReset, carried: true},
 	{name: "connstate", rules: []string{"C14|R1", "C14|R2"}, mask: evByteOK | evHandler, state: true},
 	{name: "shutdown", rules: []string{"C15|R3", "C15|R4"}, mask: evHandler | evWrote | evStopChecked | evIdleZero | evIdleMarked},
-	{name: "timeout", rules: []string{"C16|R1", "C16|R2"}, mask: evTimeoutT | evFreshCtx | evCopied},
+	{name: "timeout", rules: []string{"C16|R1", "C16|R2", "C16|R3", "C10|R3"}, mask: evTimeoutT | evFreshCtx | evCopied | evHandler | evCtxSwapped},
 	{name: "hijack", rules: []string{"C17|R1", "C17|R3", "C17|R4"}, mask: evWrote | evFlushedAfterWrite | evHijackGo | evHijackNoResp},
 	{name: "head", rules: []string{"C03|R4"}, mask: evHandler | evHeadTested | evIsHead | evHeadSkip},
 }
@@ -209,6 +209,65 @@ func (p *Prog) serveLoop(prop string) *serveResult {
 	if u, ok := hcall.Common().Args[0].(*ssa.UnOp); ok && u.Op == token.MUL {
 		ctxAlloc, _ = u.X.(*ssa.Alloc)
 	}
+
+	// first-level fields of the ctx object that the loop itself stores before dispatching the handler
+	// (per-request bookkeeping such as connRequestNum): on a ctx swapped in afterwards they hold reset values
+	isCtxLoad := func(v ssa.Value) bool {
+		u, ok := v.(*ssa.UnOp)
+		return ok && u.Op == token.MUL && ctxAlloc != nil && u.X == ssa.Value(ctxAlloc)
+	}
+	loopStored := map[*types.Var]bool{}
+	for _, b := range fn.Blocks {
+		if !inL[b] || !b.Dominates(hcall.Block()) {
+			continue
+		}
+		for _, in := range b.Instrs {
+			if st, ok := in.(*ssa.Store); ok {
+				if fa, ok := st.Addr.(*ssa.FieldAddr); ok && isCtxLoad(fa.X) {
+					if fv := fieldVar(fa.X.Type(), fa.Field); fv != nil {
+						loopStored[fv] = true
+					}
+				}
+			}
+		}
+	}
+	res.counts["C16.R3 ctx fields stored by the loop before the handler"] = len(loopStored)
+	staleExempt := map[string]string{
+		"time": "only used as the idle-since marker after the response; any non-zero value in the past means idle, which the connection then is",
+	}
+	// fields of parameter i that a module function reads directly (one level of calls followed)
+	var readsOfParam func(f *ssa.Function, i int, depth int) map[*types.Var]bool
+	readsOfParam = func(f *ssa.Function, i int, depth int) map[*types.Var]bool {
+		out := map[*types.Var]bool{}
+		if f == nil || f.Blocks == nil || i >= len(f.Params) || depth > 2 {
+			return out
+		}
+		prm := ssa.Value(f.Params[i])
+		for _, b := range f.Blocks {
+			for _, in := range b.Instrs {
+				switch in := in.(type) {
+				case *ssa.UnOp:
+					if fa, ok := in.X.(*ssa.FieldAddr); ok && in.Op == token.MUL && fa.X == prm {
+						if fv := fieldVar(fa.X.Type(), fa.Field); fv != nil {
+							out[fv] = true
+						}
+					}
+				case *ssa.Call:
+					if g := in.Call.StaticCallee(); g != nil && inModule(g) {
+						for ai, a := range in.Call.Args {
+							if a == prm {
+								for fv := range readsOfParam(g, ai, depth+1) {
+									out[fv] = true
+								}
+							}
+						}
+					}
+				}
+			}
+		}
+		return out
+	}
+	staleKeys := []string{"C16|R3|per-request ctx fields are not read from the swapped-in ctx", "C10|R3|close decision does not read per-request fields from the swapped-in ctx"}
 
 	// reader calls whose error must be nil when the handler runs
 	var readerCalls []*ssa.Call
@@ -405,6 +464,37 @@ func (p *Prog) serveLoop(prop string) *serveResult {
 					}
 					if bad != "" {
 						check("C17|R3|no server use of the connection or the ctx after the hijack hand-off", false, st, in.Pos(), "after 'go hijackConnHandler' the serve function performed "+bad)
+					}
+				}
+			}
+			if st.Has(evCtxSwapped) && inL[b] {
+				var stale []*types.Var
+				switch w := in.(type) {
+				case *ssa.UnOp:
+					if fa, ok := w.X.(*ssa.FieldAddr); ok && w.Op == token.MUL && isCtxLoad(fa.X) {
+						if fv := fieldVar(fa.X.Type(), fa.Field); fv != nil && loopStored[fv] {
+							stale = append(stale, fv)
+						}
+					}
+				case *ssa.Call:
+					if g := w.Call.StaticCallee(); g != nil && inModule(g) {
+						for ai, a := range w.Call.Args {
+							if isCtxLoad(a) {
+								for fv := range readsOfParam(g, ai, 0) {
+									if loopStored[fv] {
+										stale = append(stale, fv)
+									}
+								}
+							}
+						}
+					}
+				}
+				for _, fv := range stale {
+					if staleExempt[fv.Name()] != "" {
+						continue
+					}
+					for _, k := range staleKeys {
+						check(k, false, st, in.Pos(), "ctx."+fv.Name()+" is set by the serve loop on the ctx handed to the handler, but is read here after that ctx was exchanged for a fresh one on the timeout path: the fresh ctx holds the reset value")
 					}
 				}
 			}
@@ -669,6 +759,11 @@ func (p *Prog) serveLoop(prop string) *serveResult {
 					check("C11|R-reset|request and response are reset before the next request", st.Has(evReqReset) && st.Has(evRespReset), st, hcall.Pos(),
 						"a path from the handler to the next iteration does not pass both Request.Reset and Response.Reset")
 					check("C14|R1|iteration ends in StateIdle", stateOf(st) == 2, st, hcall.Pos(), "next request awaited while the reported state is not Idle")
+				}
+				if st.Has(evCtxSwapped) {
+					for _, k := range staleKeys {
+						check(k, true, st, hcall.Pos(), "")
+					}
 				}
 				check("C01|R2b|no further request after an error response", !st.Has(evErrResp), st, hcall.Pos(),
 					"the loop continues after writeErrorResponse")
@@ -941,6 +1036,8 @@ func (p *Prog) serveLoop(prop string) *serveResult {
 		"C02|R1a|rejected expectation is answered with Connection: close",
 		"C03|R4|HEAD is tested on the served request before the response is written",
 		"C03|R4|HEAD response is written with SkipBody",
+		"C16|R3|per-request ctx fields are not read from the swapped-in ctx",
+		"C10|R3|close decision does not read per-request fields from the swapped-in ctx",
 	}
 	for _, k := range mustSee {
 		ran := false
